@@ -32,8 +32,9 @@ RULE = ("Hypothesis: real-basis expressions = 1-3 terms of rational "
         "once). Non-trivial: output differs from the input and holds >= 1 "
         "intermediate (factoring) / none (expansion, reduction); an order-2 "
         "or multi-term intermediate is involved.")
-BUDGET = {"quick": 150, "thorough": 2400}
+BUDGET = {"quick": 75, "thorough": 2400}
 N_EXAMPLES = {"quick": 6, "thorough": 80}
+CASE_TIMEOUT = {"quick": 30, "thorough": 600}
 ASSUMPTIONS = ["RE residual intermediates (which factor to a placeholder "
                "'Zero' that only vanishes on-shell) are not requested"]
 
@@ -59,11 +60,14 @@ SP = {"o": "occ", "v": "virt"}
 
 
 @st.composite
-def st_term(draw, n_target):
+def st_term(draw, n_target, tier="thorough"):
     objs = []
     n_itmd = draw(st.integers(1, 2))
+    templ = TEMPLATES if tier == "thorough" else \
+        [t for t in TEMPLATES if not (t[0] == "t2" and len(t[2]) == 3)
+         and t[0] not in ("t2eriA", "t2eriB")]
     for _ in range(n_itmd):
-        objs.append(draw(st.sampled_from(TEMPLATES)))
+        objs.append(draw(st.sampled_from(templ)))
     for _ in range(draw(st.integers(0, 2))):
         objs.append(draw(st.sampled_from(PLAIN)))
     descs = []
@@ -119,7 +123,7 @@ def st_case(draw, tier):
     terms = []
     targets = []
     for _ in range(n_terms):
-        t, tg = draw(st_term(n_target))
+        t, tg = draw(st_term(n_target, tier))
         terms.append(t)
         targets = tg
     req = draw(st.sampled_from(["expand_fully", "expand_once", "reduce",
